@@ -196,7 +196,7 @@ def to_dict(collection, engine, key_selector, value_selector=None):
         value = t if value_selector is None else value_selector(t)
         result[key] = value
         utils.limit_memory_usage(engine, (1, result))
-    return result
+    return utils.FrozenDict(result)
 
 
 @specs.parameter('d', utils.MappingType, alias='dict')
@@ -920,7 +920,7 @@ def delete_keys_seq(d, keys):
     copy = dict(d)
     for t in keys:
         copy.pop(t, None)
-    return copy
+    return utils.FrozenDict(copy)
 
 
 @specs.method
@@ -987,7 +987,7 @@ def list_insert(collection, position, value):
     """
     copy = list(collection)
     copy.insert(position, value)
-    return copy
+    return tuple(copy)
 
 
 @specs.method
